@@ -622,6 +622,7 @@ func (net *Net) RunSync(target uint64, roundBound uint32, adv func()) SyncResult
 		r uint32
 	}
 	start := map[int]hr{}
+	lagRef := map[int]uint64{} // highest store height in the network when the node last changed its height
 	for _, n := range net.Alive() {
 		rs := n.CS.GetRoundState()
 		start[n.Idx] = hr{rs.Height, rs.Round}
@@ -647,7 +648,14 @@ func (net *Net) RunSync(target uint64, roundBound uint32, adv func()) SyncResult
 			s := start[n.Idx]
 			if rs.Height != s.h {
 				start[n.Idx] = hr{rs.Height, rs.Round}
+				lagRef[n.Idx] = net.MaxHeight()
 			} else {
+				if ref, ok := lagRef[n.Idx]; !ok {
+					lagRef[n.Idx] = net.MaxHeight()
+				} else if n.BO.Height() < target && net.MaxHeight() > ref+60 {
+					res.Stuck = fmt.Sprintf("node %d does not catch up: still in height %d while the others committed %d further heights with everything delivered", n.Idx, rs.Height, net.MaxHeight()-ref)
+					return res
+				}
 				if d := rs.Round - s.r; d > res.MaxRounds {
 					res.MaxRounds = d
 				}
